@@ -9,7 +9,7 @@
 #include <stdlib.h>
 #include "verif.h"
 // file-local prime tables of the hash are reached by including the unit (it is then not linked separately)
-#include "../../../repo/asmjit/support/arenahash.cpp"
+#include <asmjit/support/arenahash.cpp>
 using namespace asmjit;
 
 // =================================================================================================================
